@@ -142,14 +142,19 @@ func (s *swarm[A]) handleTell(ctx context.Context, x p2p.Message[A]) error {
 	}
 	s.mu.Unlock()
 	if agg.addPart(part, totalParts, data) {
+		// forget the aggregator before handing the message up: Deliver lasts as long as the
+		// receiver's callback, and a fragment numbered like this message (a sender that
+		// restarted) must not be combined with its parts meanwhile
+		s.mu.Lock()
+		if s.aggs[key] == agg {
+			delete(s.aggs, key)
+		}
+		s.mu.Unlock()
 		err = s.tells.Deliver(ctx, p2p.Message[A]{
 			Src:     x.Src,
 			Dst:     x.Dst,
 			Payload: agg.assemble(),
 		})
-		s.mu.Lock()
-		delete(s.aggs, key)
-		s.mu.Unlock()
 	}
 	return err
 }
